@@ -1813,3 +1813,48 @@ def inline_thunks(f):
     if n:
         f.rewrites.append(('R6', f'{n}x named zero-argument closure `let f = || EXPR;` inlined at its uses', ''))
     return f
+
+
+def unfor_array(f):
+    """R5: `for V in [A, B, ..] { BODY }` over an array literal of plain names -> one copy of BODY per element, in order (`{ let V = A; BODY } { let V = B; BODY }`)"""
+    n = 0
+    while True:
+        m = re.search(r'for (\w+) in \[([\w\s,]+)\] (\{)', f.body)
+        if not m:
+            break
+        c = match_brace(f.body, m.start(3))
+        inner = f.body[m.start(3) + 1:c]
+        elems = [e.strip() for e in m.group(2).split(',') if e.strip()]
+        f.body = f.body[:m.start()] + ' '.join(f'{{ let {m.group(1)} = {e}; {inner} }}' for e in elems) + f.body[c + 1:]
+        n += 1
+    if n:
+        f.rewrites.append(('R5', f'{n}x `for v in [a, b, ..]` over an array literal unrolled', ''))
+    return f
+
+
+def pull_work_helpers(u, callers, node_ty, generics):
+    """associated functions of the traversal work item (`impl<'a, E> Work<'a, E, *const E>` in circuit/src/symbolic/dag.rs) that the compile functions call and the unit does not know:
+    extracted verbatim, specialised to the unit's node type (R11: E -> node type, `*const E` -> NodeKey, `x as *const E` -> node_key(x)), WITHOUT a contract"""
+    out, seen = [], {'Eval', 'BuildNeg', 'BuildBinary'}
+    for f in callers:
+        for nm in re.findall(r'\bWork::(\w+)\s*\(', f.body):
+            if nm in seen:
+                continue
+            seen.add(nm)
+            try:
+                h = u.extract('circuit/src/symbolic/dag.rs', r"impl<'a, E> Work<'a, E, \*const E>", nm, f'Work::{nm}[helper, no contract]')
+            except ExtractError:
+                continue
+            for where in ('sig', 'body'):
+                h.rewrite_re('R11', r'\*const E\b', 'NodeKey', where=where, min_count=0)
+                h.rewrite_re('R11', r'\bVec<Self>', f"Vec<Work<'a, {node_ty}, NodeKey>>", where=where, min_count=0)
+                h.rewrite_re('R11', r"&'a E\b", f"&'a {node_ty}", where=where, min_count=0)
+                h.rewrite_re('R11', r'\bE\b', node_ty, where=where, min_count=0)
+            h.rewrite_re('R11', r'\((\w+) as NodeKey\)', r'node_key(\1)', min_count=0)
+            h.rewrite_re('R11', r'\bSelf::', 'Work::', min_count=0)
+            h.rewrite_re('R12', r'pub\(super\)\s*', '', where='sig', min_count=0)
+            h.rewrite_re('R1', r'if let Some\(&(\w+)\) = ([^{]+?) \{', r'if let Some(\1_r_) = \2 { let \1 = *\1_r_;', min_count=0)
+            unfor_array(h)
+            h.sig = re.sub(r'fn (\w+)\s*\(', lambda m_: f'fn {m_.group(1)}<{generics}>(', h.sig, count=1) if generics else h.sig
+            out.append(h)
+    return out
